@@ -496,6 +496,14 @@ Definition run (c : val) : val :=
       else if String.eqb fam "valid-spec" then run_valid_spec args
       else if String.eqb fam "be" then run_be args
       else if String.eqb fam "be-spec" then be_spec args
+      else if String.eqb fam "bgone-spec" then
+        (* the peer stopped reading before the server ran (no model of failing sends: judged by the specification only):
+           whatever the server did with the requests, no descriptor it received stays open once it is gone (C09) *)
+        (match args with
+         | [_; _; _; VL [VL _; VL _; _; VN 0]] => VS "true"
+         | [_; _; _; VL [VL _; VL _; _; VN _]] => VS "false:C09"
+         | [_; _; _; _] => VS "false:C05"
+         | _ => verror "args" end)
       else if String.eqb fam "seg" then run_seg args
       else if String.eqb fam "fe" then run_fe args
       else if String.eqb fam "sess" then run_sess args
